@@ -344,7 +344,7 @@ class MySQLHandshakeV10(MySQLPacketBase):  # pylint: disable=too-many-instance-a
     character_set = attr.ib(
         default=MySQLCharacterSet.UTF8, validator=attr.validators.optional(attr.validators.in_(MySQLCharacterSet))
     )
-    states = attr.ib(default={}, validator=attr.validators.deep_iterable(
+    states = attr.ib(default=attr.Factory(dict), validator=attr.validators.deep_iterable(
         member_validator=attr.validators.instance_of(MySQLStatusFlag),
     ))
     auth_plugin_data_2 = attr.ib(
